@@ -16,6 +16,17 @@ int main(int argc, char** argv) {
     if (strstr(fn, "avx")) fft64_vmp_prepare_contiguous_avx(mod, pmat, mat, NR, NC, tmp); else fft64_vmp_prepare_contiguous_ref(mod, pmat, mat, NR, NC, tmp);
     return drv_finish();  // only ASan can reproduce a frame / extent violation here
   }
+  if (strstr(fn, "full")) {   // fft64_vmp_apply_dft_{ref,avx}: int64 input with stride N+1, scratch of exactly vmp_apply_dft_tmp_bytes
+    uint64_t asl = N + arg_i("ASL_ADD", 1);
+    double* pm = xalloc(NR * NC * N * 8); int64_t* a = xalloc(AS ? ((AS - 1) * asl + N) * 8 : 0); double* res = xalloc(RS * N * 8);
+    for (uint64_t i = 0; i < NR * NC * N; ++i) pm[i] = (double)rnd_bits(10);
+    for (uint64_t i = 0; AS && i < (AS - 1) * asl + N; ++i) a[i] = rnd_bits(20);
+    uint64_t tb = fft64_vmp_apply_dft_tmp_bytes(mod, RS, AS, NR, NC); uint8_t* tmp = xalloc(tb);
+    if (strstr(fn, "avx")) fft64_vmp_apply_dft_avx(mod, (VEC_ZNX_DFT*)res, RS, a, AS, asl, (const VMP_PMAT*)pm, NR, NC, tmp);
+    else fft64_vmp_apply_dft_ref(mod, (VEC_ZNX_DFT*)res, RS, a, AS, asl, (const VMP_PMAT*)pm, NR, NC, tmp);
+    for (uint64_t c = cmax; c < RS && !g_found; ++c) for (uint64_t j = 0; j < N; ++j) if (res[c * N + j] != 0.0) { REPRODUCED("%s: column %lu beyond the matrix is not zero", fn, (unsigned long)c); break; }
+    return drv_finish();  // otherwise only ASan can reproduce an extent / scratch violation
+  }
   double* out[2];
   for (int rep = 0; rep < 2; ++rep) {
     rng_s = 0x9E3779B97F4A7C15ull;
